@@ -52,6 +52,10 @@ func c07Shape(n *parser.ASTNode) bool {
 		ok = len(c) == 2
 	case c07Is(n, parser.NodePLUS, parser.NodeMINUS):
 		ok = len(c) == 1 || len(c) == 2
+	case c07Is(n, parser.NodeMAP):
+		for i := 0; ok && i < len(c); i++ {
+			ok = c[i].Name == parser.NodeKVP // evaluation reads key and value of every entry unconditionally
+		}
 	case c07Is(n, parser.NodeRETURN):
 		ok = len(c) <= 1
 	case c07Is(n, parser.NodeTRY):
@@ -137,6 +141,10 @@ var c07Bases = [][]string{
 	{"for", "a", ">", "1", "{", "b", "}"},
 	{"a", "[", "1", "]", ":=", "b", "[", "'x'", "]", ".", "c"},
 	{"if", "a", "{", "b", "}", "elif", "c", "{", "}", "else", "{", "e", "}"},
+	// containers nested in containers (map in map, map in list in map), as a literal, as call arguments, as a sink attribute
+	{"a", ":=", "{", "\"k\"", ":", "{", "\"j\"", ":", "1", "}", ",", "\"l\"", ":", "[", "{", "\"m\"", ":", "2", "}", "]", "}"},
+	{"f", "(", "{", "\"k\"", ":", "1", "}", ",", "[", "{", "\"j\"", ":", "2", "}", "]", ")"},
+	{"sink", "s", "kindmatch", "[", "\"a\"", "]", ",", "statematch", "{", "\"a\"", ":", "{", "\"b\"", ":", "1", "}", "}", ",", "{", "a", "}"},
 }
 
 // VerifC07Mutations: a valid base program with MUT positions replaced by an arbitrary token of the table,
@@ -182,7 +190,9 @@ func VerifC07Mutations() {
 	for _, x := range toks {
 		src += x + " "
 	}
-	c07Check(src, false)
+	// EVAL=1: base programs without loops and calls of user functions are also evaluated (a mutation of one token cannot
+	// turn them into a non-terminating program); used by C06: whatever the parser accepts must evaluate without a panic
+	c07Check(src, zz.Param("EVAL", 0) == 1 && (bi == 5 || bi == 7 || bi == 10 || bi >= 12))
 }
 
 var c07Fillers = []string{")", "a", "1", "{"}
